@@ -242,8 +242,11 @@ class Layouts:
     def _looks_list(self, v):
         if isinstance(v, ast.IfExp):
             return self._looks_list(v.body) and self._looks_list(v.orelse)
+        def listy(x):
+            return isinstance(x, (ast.List, ast.ListComp)) or (isinstance(x, ast.Call) and str(U(x.func)) in ("list", "sorted")) \
+                or (isinstance(x, ast.BinOp) and isinstance(x.op, ast.Add) and (listy(x.left) or listy(x.right)))
         return isinstance(v, (ast.List, ast.ListComp)) or (isinstance(v, ast.BinOp) and isinstance(v.op, (ast.Add, ast.Mult))
-                                                          and any(isinstance(x, (ast.List, ast.ListComp)) for x in (v.left, v.right))) \
+                                                          and any(listy(x) for x in (v.left, v.right))) \
             or (isinstance(v, ast.Call) and str(U(v.func)) in ("list", "copy", "deepcopy", "chain", "chain.from_iterable"))
 
     def _run(self, stmts):
